@@ -191,6 +191,65 @@ fn flip_sweep(ctx: &Ctx, w: &World, v: &Victim, all_bits: bool, col: &Collector)
     col.class_n(if all_bits { "sweep:bytes-all-bits" } else { "sweep:bytes-one-bit" }, n);
 }
 
+/// Offsets of bytes that are parsed with structure: counts, the flavour flag, and the first and
+/// last byte of every point (encoding tag / sign and canonical-range bits).
+fn structural_offsets(w: &WXEnc) -> Vec<usize> {
+    let mut out = vec![];
+    let mut pos = wire::TAG;
+    let l = wire::leb_len(w.c.len() as u64);
+    out.extend(pos..pos + l);
+    pos += l;
+    for _ in 0..w.c.len() {
+        out.push(pos);
+        out.push(pos + wire::POINT - 1);
+        pos += wire::POINT;
+    }
+    out.push(pos);
+    pos += 1;
+    let l = wire::leb_len(w.encs.len() as u64);
+    out.extend(pos..pos + l);
+    out
+}
+
+/// Replace bytes by other values (a bit flip only reaches 8 of the 255 other values): every value
+/// on the structural bytes, and on every byte outside the ML-KEM ciphertexts when `full`; four
+/// values (0x00, 0xff, +1, 0x05) elsewhere.
+fn value_sweep(ctx: &Ctx, w: &World, v: &Victim, full: bool, col: &Collector) {
+    let structural = structural_offsets(&v.w);
+    let n = v.bytes.len() as u64;
+    par_for(ctx.threads, n, col, |off| {
+        let off = off as usize;
+        let comp = component_at(&v.w, off);
+        let orig = v.bytes[off];
+        let in_ct = comp.starts_with("mlkem-ct");
+        let values: Vec<u8> = if structural.contains(&off) || (full && !in_ct) {
+            (0..=255u8).filter(|x| *x != orig).collect()
+        } else if in_ct && !ctx.thorough {
+            // bytes of an ML-KEM ciphertext carry no structure: the bit flips cover them
+            vec![]
+        } else {
+            let mut xs = vec![0x00u8, 0xff, orig.wrapping_add(1), 0x05];
+            xs.sort();
+            xs.dedup();
+            xs.retain(|x| *x != orig);
+            xs
+        };
+        for x in values {
+            // single-bit differences are the bit-flip sweep's
+            if (x ^ orig).count_ones() == 1 {
+                continue;
+            }
+            let mut m = v.bytes.clone();
+            m[off] = x;
+            if let Err(f) = crate::runner::guarded(|| judge(w, v, &m, "byte-value", &comp, col)) {
+                report_fail(col, "xenc-mutant", f, json!({"policy": v.policy, "mutation": "byte-value", "offset": off, "value": x, "component": comp}));
+                return;
+            }
+        }
+    });
+    col.class_n(if full { "sweep:bytes-all-values" } else { "sweep:structural-bytes-all-values" }, if full { n } else { structural.len() as u64 });
+}
+
 fn truncations(w: &World, v: &Victim, col: &Collector) {
     for n in 0..v.bytes.len() {
         if let Err(f) = crate::runner::guarded(|| judge(w, v, &v.bytes[..n], "truncation", "tail", col)) {
@@ -400,6 +459,10 @@ pub fn run(ctx: &Ctx, col: &Collector) -> Meta {
         if col.stopped() {
             return meta(ctx);
         }
+        value_sweep(ctx, &fx.world, v, ctx.thorough && (!v.w.hyb || i == 3), col);
+        if col.stopped() {
+            return meta(ctx);
+        }
         if !v.w.hyb || ctx.thorough {
             truncations(&fx.world, v, col);
         }
@@ -420,7 +483,7 @@ fn meta(ctx: &Ctx) -> Meta {
     Meta {
         level: "fault_enumeration",
         rule: format!(
-            "victims: encapsulations for {:?} (classic 1-3 targets, hybridized 1-4 targets) presented to 5 keys (authorized, unauthorized, broadcast, two-revision); faults: every byte x every bit of the serialized classic encapsulations and of one hybridized one ({}), every truncation, generated structural rearrangements through the independent codec ({:?}), every bit of PKE ciphertexts and encrypted header metadata for 4 plaintext lengths, header splices. A mutant that deserializes to an object != the original must yield no secret for every key. Non-trivial = mutant that deserializes and is presented to an authorized key; distinct by (flavour, #targets, mutation kind, component hit, key)",
+            "victims: encapsulations for {:?} (classic 1-3 targets, hybridized 1-4 targets) presented to 5 keys (authorized, unauthorized, broadcast, two-revision); faults: every byte x every bit of the serialized classic encapsulations and of one hybridized one ({}), every other value of the structural bytes (counts, flavour flag, first and last byte of every point) and four values of every other byte outside the ML-KEM ciphertexts (thorough tier: every value of every byte outside them, four values inside), every truncation, generated structural rearrangements through the independent codec ({:?}), every bit of PKE ciphertexts and encrypted header metadata for 4 plaintext lengths, header splices. A mutant that deserializes to an object != the original must yield no secret for every key. Non-trivial = mutant that deserializes and is presented to an authorized key; distinct by (flavour, #targets, mutation kind, component hit, key)",
             ENC_POLICIES,
             if ctx.thorough { "all hybridized victims x every bit in this tier" } else { "other hybridized victims: every byte x one bit in this tier" },
             KINDS
@@ -447,6 +510,25 @@ pub fn replay(kind: &str, case: &serde_json::Value, col: &Collector) -> CheckRes
                     let mut m = v.bytes.clone();
                     m[off] ^= 1 << bit;
                     judge(&fx.world, v, &m, "bit-flip", &component_at(&v.w, off), col)
+                }
+                Some("byte-value") => {
+                    // victims are made afresh for every run: whether a value is accepted can
+                    // depend on the bytes of the point it lands on, so try several encapsulations
+                    let comp = case["component"].as_str().unwrap_or("").to_string();
+                    let x = case["value"].as_u64().unwrap_or(0) as u8;
+                    for _ in 0..12 {
+                        let v = victim(&fx.world, pol)?;
+                        for off in 0..v.bytes.len() {
+                            if component_at(&v.w, off) == comp && structural_offsets(&v.w).contains(&off) || off == case["offset"].as_u64().unwrap_or(0) as usize {
+                                let mut m = v.bytes.clone();
+                                if m[off] != x {
+                                    m[off] = x;
+                                    judge(&fx.world, &v, &m, "byte-value", &comp, col)?;
+                                }
+                            }
+                        }
+                    }
+                    Ok(())
                 }
                 Some("truncate") => {
                     let n = case["len"].as_u64().unwrap_or(0) as usize % v.bytes.len();
